@@ -280,6 +280,7 @@ fn corner_families(mode: u8) -> Vec<(String, MapSpec)> {
         o.extend((0..8).map(|i| circle(50 + 40 * i, 200, 20_000_000.0 + 100.0 * f64::from(i))));
         o
     }, &none);
+    add("almost-a-day-of-silence", vec![circle(10, 10, 0.0), circle(300, 200, 86_000_000.0), circle(200, 100, 86_000_300.0), slider(100, 100, 86_000_600.0, 140.0, 1)], &none);
     add("negative-times", vec![circle(10, 10, -3000.0), circle(200, 200, -2500.0), slider(300, 100, -2000.0, 140.0, 1), circle(100, 300, -100.0), circle(400, 300, 400.0)], &none);
     add("all-negative", (0..6).map(|i| circle(40 * i, 40 * i, -5000.0 + 200.0 * f64::from(i))).collect(), &none);
     add("tiny-sliders", (0..6).map(|i| slider(50 + 60 * i, 100, 1000.0 + 300.0 * f64::from(i), 0.01, 1)).collect(), &none);
